@@ -190,7 +190,7 @@ def run(spec):
     rec = Rec(spec["name"])
     rec.count("tripwire_armed")
     w, steps = spec["w"], spec["steps"]
-    seeds = [0, 1, 2**32 - 1, 2**63, 2**64 + 1, derive_seed("c06", spec["seed"], spec["name"])]
+    seeds = [0, 1, 2**32 - 1, 2**63, 2**64 + 1, derive_seed("c06", spec["seed"], spec["name"]), np.int64(derive_seed("c06n", spec["seed"], spec["name"]) % 2**62)]  # the last one numpy-typed (replica seeds drawn with numpy)
     if spec.get("nseeds"):
         seeds = [0, derive_seed("c06", spec["seed"], spec["name"])][: spec["nseeds"]]
     at5 = {}
